@@ -22,7 +22,7 @@ def run(tier, seed, replay=None):
     v = vlib.Verdict(pid, tier, seed)
     cfg = "Netceptor_quick.cfg" if tier == "quick" else "Netceptor_full.cfg"
     r = vlib.tlc_must_pass("Netceptor", cfg, wd, workers=10, timeout=3000, heap="12g")
-    wit = vlib.witnesses("Netceptor", "Netceptor_quick.cfg", ["W_NotStableAfterEvents", "W_NoIndirectRoute"], wd, workers=8, timeout=900)
+    wit = vlib.witnesses("Netceptor", "Netceptor_line.cfg", ["W_NotStableAfterEvents", "W_NoIndirectRoute"], wd, workers=8, timeout=900)
     nsc, maxn = (24, 5) if tier == "quick" else (400, 6)
     hooks = os.path.join(wd, "mesh_hooks.ndjson")
     out = tracecheck.run(wd, ["mesh", "-scenarios", str(nsc), "-seed", str(seed), "-max-nodes", str(maxn), "-hooktrace", hooks],
